@@ -752,10 +752,12 @@ class LinearOperator(object):
             *self.representation(),
         )
 
-        if initial_vectors is not None and initial_vectors.size(-1) > 1:
-            add_to_cache(self, "root_decomposition", RootLinearOperator(roots[0]))
-        else:
-            add_to_cache(self, "root_decomposition", RootLinearOperator(roots))
+        # Keep the root as a by-product, but never replace a root decomposition that is already cached
+        if not _is_in_cache_ignore_all_args(self, "root_decomposition"):
+            if initial_vectors is not None and initial_vectors.size(-1) > 1:
+                add_to_cache(self, "root_decomposition", RootLinearOperator(roots[0]))
+            else:
+                add_to_cache(self, "root_decomposition", RootLinearOperator(roots))
 
         return inv_roots
 
